@@ -76,13 +76,14 @@ TIMEOUT = {"quick": 1800, "thorough": 7200}
 from vmon.models import c14_apps as A  # noqa: E402
 
 TARGETS = ["reverse", "first-last", "last-first", "evens-odds", "random", "identity"]
-MODES = ["ok", "exc", "none", "wrong", "nc", "falsy"]
+MODES = ["ok", "exc", "none", "wrong", "nc", "falsy", "empty"]
 VARIANTS = {
     "exc": ["ValueError", "KeyError", "OSError", "AssertionError", "StopIteration", "PlannedError", "RuntimeError", "ZeroDivisionError"],
     "none": [None],
     "wrong": ["str", "int", "list-of-str", "set-of-str"],
     "nc": ["origin-instance", "origin-str", "type-custom"],
     "falsy": ["zero", "empty-dict", "empty-list", "empty-str", "false", "zero-float"],
+    "empty": ["item", "seqs"],  # falsy (zero length) AND carrying the record's source; always followed by a typed step
     "ok": [None],
 }
 GAP0 = 0.1
@@ -142,6 +143,13 @@ def gen_cases(rng, tier):
     # fixed small workloads, so that every seed reaches the "value the writer cannot store" class
     cases.append({"kind": "fixed", "store": "fasta", "variant": "str"})
     cases.append({"kind": "fixed", "store": "dir", "variant": "set-of-str"})
+    # dotted identifiers in the suffix-less store and a falsy value that carries its source: reached by every seed
+    for order in ("base-first", "base-last"):
+        cases.append({"kind": "fixed-dotted", "order": order, "entry": "apply_to", "resumed": False, "empty": "seqs"})
+        cases.append({"kind": "fixed-dotted", "order": order, "entry": "apply_to", "resumed": True, "empty": "item", "inputs": "member"})
+        cases.append({"kind": "fixed-dotted", "order": order, "entry": "call", "resumed": False, "empty": "seqs"})
+    for i in range(6 if tier == "quick" else 40):
+        cases.append({"kind": "real", "seed": rng.randrange(2**32), "order": ["base-first", "base-last", "shuffled"][i % 3], "inputs": ["str", "member"][i % 2]})
     return cases
 
 
@@ -194,10 +202,18 @@ def make_plan(rng, keys, steps, pattern):
         elif pattern == "all-fail":
             mode = rng.choice(["exc", "none", "nc", "exc"])
         else:
-            mode = rng.choices(MODES, weights=[40, 18, 9, 12, 12, 9])[0]
+            mode = rng.choices(MODES, weights=[40, 18, 9, 12, 12, 9, 12])[0]
         if mode == "ok":
             continue
-        plan[k] = {"at": rng.choice(at), "mode": mode, "variant": rng.choice(VARIANTS[mode])}
+        pos = rng.choice(at)
+        if mode == "empty":
+            # needs a typed step behind it (which then has to report a failure naming the source)
+            ok_pos = [a for a in at if any(s_ in A.TYPED for s_ in steps[a:])]
+            if ok_pos:
+                pos = rng.choice(ok_pos)
+            else:
+                mode = "none"
+        plan[k] = {"at": pos, "mode": mode, "variant": rng.choice(VARIANTS[mode])}
     if pattern == "single-fail" and keys:
         k = rng.choice(keys)
         plan = {k: plan.get(k) or {"at": rng.choice(at), "mode": "exc", "variant": "ValueError"}}
@@ -239,6 +255,20 @@ def make_workload(rng, n, store=None, entry=None, inputs=None, idfn="random"):
                 W["keys"] = ["n" + toks[i // 2][1:] + "ab"[i % 2] for i in range(n)]
             else:
                 W["idfn"] = "tagged"
+    # the composed app CALLED on each input (only with the pickling writer, which also stores not-completed values)
+    if entry is None and store == "sql" and inputs != "values" and W["layout"] == "flat" and rng.random() < 0.3:
+        W["entry"], W["idfn"], W["logger"] = "call", None, False
+    # identifiers where one is another plus a dotted tail (gene, gene.1, gene.2, other): only with the suffix-less store
+    W["keyscheme"] = "plain"
+    if store == "sql" and W["layout"] == "flat" and inputs != "values" and rng.random() < 0.5:
+        W["keyscheme"] = "dotted"
+        toks = make_ids(rng, (n + 2) // 3)
+        W["keys"] = [toks[i // 3] + ("" if i % 3 == 0 else f".{i % 3}") for i in range(n)]
+        order = rng.choice(["base-first", "base-last", "shuffled"])
+        if order == "base-last":
+            W["keys"].reverse()
+        elif order == "shuffled":
+            rng.shuffle(W["keys"])
     W["payload"] = {k: "%08x" % rng.getrandbits(32) for k in W["keys"]}
     pattern = rng.choice(["mixed", "mixed", "mixed", "mixed", "all-ok", "all-fail", "single-fail"])
     if inputs in ("items", "values"):
@@ -256,7 +286,7 @@ def make_workload(rng, n, store=None, entry=None, inputs=None, idfn="random"):
             # result, then the next step raises (so the failure has no source either)
             W["plan"] = {}
             for i in failing:
-                m = rng.choice([("exc", 0), ("exc", 0), ("strip", 0), ("exc", 1)]) if W["entry"] == "apply_to" else ("exc", 0)
+                m = rng.choice([("exc", 0), ("exc", 0), ("strip", 0), ("exc", 1)]) if W["entry"] in ("apply_to", "call") else ("exc", 0)
                 W["plan"][W["keys"][i]] = {"mode": m[0], "at": m[1], "variant": "ValueError"}
     else:
         W["plan"] = make_plan(rng, W["keys"], steps, pattern)
@@ -378,6 +408,13 @@ def expected(W, names, key, src_text):
             "source": fname,
             "last_start": j,
         }
+    if mode == "empty":
+        # a zero-length value that still carries the source: the first typed step behind it rejects it, and the
+        # failure must name the source although the value is falsy
+        for k in range(j + 1, len(steps) + 1):
+            if steps[k - 1] in A.TYPED:
+                return {"kind": "nc", "type": "ERROR", "origin": names[k], "needles": [], "source": fname, "last_start": j}
+        raise RuntimeError("harness: 'empty' planned without a typed step behind it")
     # a wrong-typed / falsy value travels on: untyped steps hand it on, the first typed step decides
     val = A.wrong_value(var, key, src_text) if mode == "wrong" else A.falsy_value(var)
     for k in range(j + 1, len(steps) + 1):
@@ -680,7 +717,25 @@ def run_history(W, world, plan, parallel=False, workers=None, delays=None, store
         kw["par_kw"]["chunksize"] = chunksize
     out = None
     try:
-        if W["entry"] == "apply_to":
+        if W["entry"] == "call":
+            out, writer, path = open_store(W, run_dir, mode="w")
+            obs["store_path"] = path
+            wrap_store(out, log)
+            app = proc + writer
+            returned = []
+            try:
+                for x in objs:
+                    r = app(x)
+                    returned.append((type(r).__name__, str(getattr(r, "unique_id", "")), repr(r)[:200]))
+            except Exception as e:  # noqa: BLE001
+                obs["raised"] = e
+            obs["returned"] = returned
+            try:
+                obs["api_completed"] = sorted(str(m.unique_id) for m in out.completed)
+                obs["api_nc"] = sorted(str(m.unique_id) for m in out.not_completed)
+            except Exception as e:  # noqa: BLE001
+                obs["api_error"] = repr(e)
+        elif W["entry"] == "apply_to":
             out, writer, path = open_store(W, run_dir, mode="w" if store_path is None else "a")
             obs["store_path"] = path
             wrap_store(out, log)
@@ -716,7 +771,8 @@ def run_history(W, world, plan, parallel=False, workers=None, delays=None, store
             except Exception:  # noqa: BLE001
                 pass
     obs["events"] = A.read_log(log)
-    if W["entry"] == "apply_to":
+    if has_store(W):
+        reopen_listing(W, obs)
         try:
             obs["records"], obs["logs"] = read_sql_store(obs["store_path"]) if W["store"] == "sql" else read_dir_store(obs["store_path"])
         except Exception as e:  # noqa: BLE001
@@ -729,6 +785,28 @@ def run_history(W, world, plan, parallel=False, workers=None, delays=None, store
             recs.append({"id": result_key(W, r), "kind": kind, "content": content, "inner_id": None, "ext": ""})
         obs["records"], obs["logs"] = recs, []
     return obs
+
+
+def has_store(W):
+    return W["entry"] in ("apply_to", "call")
+
+
+def reopen_listing(W, obs):
+    """what a FRESH store object, opened read-only on the finished store, lists"""
+    from cogent3.app.data_store import DataStoreDirectory
+    from cogent3.app.sqlite_data_store import DataStoreSqlite
+
+    try:
+        if W["store"] == "sql":
+            ro = DataStoreSqlite(obs["store_path"], mode="r")
+        else:
+            ro = DataStoreDirectory(obs["store_path"], mode="r", suffix="fasta" if W["store"] == "fasta" else "json")
+        obs["reopen_completed"] = sorted(str(m.unique_id) for m in ro.completed)
+        obs["reopen_nc"] = sorted(str(m.unique_id) for m in ro.not_completed)
+        if hasattr(ro, "close"):
+            ro.close()
+    except Exception as e:  # noqa: BLE001
+        obs["reopen_error"] = repr(e)
 
 
 def _truthy(x):
@@ -756,7 +834,7 @@ def solo_outcomes(W, plan, objs, keys):
 
 def describe(W, obs, **extra):
     d = {
-        "workload": {k: W.get(k) for k in ("n", "steps", "store", "entry", "inputs", "logger", "keys", "plan", "falsy", "falsy_vals", "payload", "idfn", "layout")},
+        "workload": {k: W.get(k) for k in ("n", "steps", "store", "entry", "inputs", "logger", "keys", "plan", "falsy", "falsy_vals", "payload", "idfn", "layout", "keyscheme")},
         "parallel": obs["parallel"],
         "workers": obs["workers"],
         "submitted": obs["keys"],
@@ -876,6 +954,8 @@ def check_history(res, W, obs, plan, label, prior=None, replay=None):
     # the identifier each input's record must be stored under: the id_from_source given to apply_to decides
     sid = {k: store_id(W, obs, k) for k in keys}
     default_sid = {k: store_id(W, obs, k, variant=None) for k in keys}
+    if has_store(W):
+        res.count("keys:" + W.get("keyscheme", "plain") + "/" + W["store"] + "/" + label)
     if W["entry"] == "apply_to":
         res.count("id_from_source:" + (W.get("idfn") or "default") + ("/default-would-collide" if len(set(default_sid.values())) < len(keys) else ""))
     writes = {k: writes.get(sid[k]) for k in keys}
@@ -883,6 +963,13 @@ def check_history(res, W, obs, plan, label, prior=None, replay=None):
     for k in keys:
         exp = exp_all[k]
         recs = by_id.get(sid[k], [])
+        if W["entry"] == "call" and not identifiable(exp):
+            # called directly, the writer has only the value to take the identifier from: nothing is demanded for
+            # a value (or failure) that legitimately carries no source
+            res.count("call:value-without-source")
+            if recs:
+                final[k] = recs[0]
+            continue
         if not recs and sid[k] != default_sid[k] and by_id.get(default_sid[k]):
             res.evals += 1
             res.witness(
@@ -927,9 +1014,15 @@ def check_history(res, W, obs, plan, label, prior=None, replay=None):
         res.evals += 1
         if k in prior:
             res.count("resume:not-completed-run-again")
-        if yields.get(k, 0) != 1:
+        if W["entry"] != "call" and yields.get(k, 0) != 1:
             res.witness("C14/conservation/yield-count-not-one", **det(key=k, yields=yields.get(k, 0)))
-        if W["entry"] == "apply_to":
+        if W["entry"] == "call":
+            res.evals += 1
+            res.count("call:record-checked")
+            ret = obs["returned"][keys.index(k)] if keys.index(k) < len(obs["returned"]) else None
+            if ret is None or ret[0] != "DataMember" or ret[1] != sid[k]:
+                res.witness("C14/call/returned-value-is-not-the-stored-member", **det(key=k, returned=ret, record=rec))
+        if has_store(W):
             res.evals += 1
             if len(writes.get(k) or []) != 1 or writes[k][0] != rec["kind"]:
                 res.witness("C14/conservation/write-events-disagree-with-store", **det(key=k, writes=writes.get(k), record=rec))
@@ -1023,7 +1116,7 @@ def check_history(res, W, obs, plan, label, prior=None, replay=None):
     if extra_y:
         res.witness("C14/conservation/yield-without-input", **det(extra=extra_y[:6]))
     # the store's own listing agrees with the disk (as sets of identifiers)
-    if W["entry"] == "apply_to" and "api_completed" in obs:
+    if has_store(W) and "api_completed" in obs:
         res.evals += 1
         strip = lambda u: os.path.splitext(os.path.basename(u))[0] if W["store"] != "sql" else u  # noqa: E731
         api = {("completed", strip(u)) for u in obs["api_completed"]} | {("nc", strip(u)) for u in obs["api_nc"]}
@@ -1032,9 +1125,35 @@ def check_history(res, W, obs, plan, label, prior=None, replay=None):
             res.witness("C14/store/listing-differs-from-disk", **det(api=sorted(api), disk=sorted(disk)))
         if W.get("logger"):
             res.count("apply_to:with-default-logger")  # the log is not a record: nothing demanded of it
+        # ... and so does a fresh store object opened on the finished store
+        res.evals += 1
+        if "reopen_error" in obs:
+            res.witness("C14/store/reopen-raises", **det(error=obs["reopen_error"]))
+        else:
+            res.count("store:reopened")
+            reo = {("completed", strip(u)) for u in obs["reopen_completed"]} | {("nc", strip(u)) for u in obs["reopen_nc"]}
+            if reo != disk:
+                res.witness("C14/store/reopened-listing-differs-from-disk", **det(reopened=sorted(reo), disk=sorted(disk)))
+            want = {(r["kind"], sid[k]) for k, r in final.items()}
+            res.evals += 1
+            if not want <= reo:
+                res.witness("C14/conservation/record-missing-after-reopen", **det(missing=sorted(want - reo), reopened=sorted(reo)))
     elif "api_error" in obs:
         res.witness("C14/store/listing-raises", **det(error=obs["api_error"]))
     return {"final": final, "n_fail": n_fail}
+
+
+def identifiable(exp):
+    """direct call: can the writer derive an identifier from what reaches it?"""
+    if exp.get("sourceless") or exp.get("writer_level"):
+        return False
+    if exp["kind"] == "nc":
+        return exp["source"] != NO_DEMAND
+    try:
+        v = json.loads(exp["content"])
+    except ValueError:
+        return False
+    return (isinstance(v, dict) and "source" in v) or (isinstance(v, str) and bool(v))
 
 
 def calm_plan(W):
@@ -1176,7 +1295,7 @@ def case_serial(res, case):
         world = World(W)
         try:
             res.count(f"histories:serial")
-            res.count(f"serial:{kind}/{W['entry']}/{W['store'] if W['entry'] == 'apply_to' else '-'}/{W['inputs']}")
+            res.count(f"serial:{kind}/{W['entry']}/{W['store'] if has_store(W) else '-'}/{W['inputs']}")
             if kind != "resume":
                 obs = run_history(W, world, W["plan"])
                 out = check_history(res, W, obs, W["plan"], "serial", replay=replay)
@@ -1264,6 +1383,202 @@ def case_fixed(res, case):
         world.close()
 
 
+def case_fixed_dotted(res, case):
+    """gene, gene.1, gene.2, other into the suffix-less store, in a given order: fresh run, resumed run, direct calls"""
+    keys = ["gene", "gene.1", "gene.2", "other"]
+    if case["order"] == "base-last":
+        keys = keys[::-1]
+    W = {
+        "n": 4, "steps": ["alpha"], "store": "sql", "entry": case["entry"], "inputs": case.get("inputs", "str"), "logger": False, "keys": keys,
+        "payload": {k: "%08x" % (i * 2246822519 % 2**32) for i, k in enumerate(keys)},
+        "plan": {"gene.2": {"at": 0, "mode": "empty", "variant": case.get("empty", "seqs")}, "other": {"at": 1, "mode": "exc", "variant": "KeyError"}},
+        "falsy": [], "idfn": None, "layout": "flat", "keyscheme": "dotted",
+    }  # fmt: skip
+    world = World(W)
+    try:
+        res.count("histories:serial")
+        if not case.get("resumed"):
+            obs = run_history(W, world, W["plan"])
+            check_history(res, W, obs, W["plan"], "serial", replay=case)
+        else:
+            o1 = run_history(W, world, {}, subset={"gene", "other"})
+            r1 = check_history(res, W, o1, {}, "serial", replay=case)
+            if r1 is not None:
+                o2 = run_history(W, world, W["plan"], store_path=o1["store_path"])
+                check_history(res, W, o2, W["plan"], "serial-resumed", prior=r1["final"], replay=case)
+    finally:
+        world.close()
+
+
+# --- the same with cogent3's own apps ---------------------------------------------------------------------------------
+
+
+def case_real(res, case):
+    """load_aligned + take_codon_positions(3) + min_length + write_db on fasta files named gene / gene.1 / gene.2 /
+    other (+ random ones); some alignments have 2 columns (nothing is left: a falsy value that carries its source),
+    some are too short, some pass. apply_to (fresh, resumed), and the composed app called on each input."""
+    import pathlib
+
+    from cogent3 import get_app, open_data_store
+
+    rng = random.Random(case["seed"])
+    base = tempfile.mkdtemp(prefix="c14-real-", dir=os.getcwd())
+    try:
+        ids = ["gene", "gene.1", "gene.2", "other"] + [t + sfx for t in make_ids(rng, 2) for sfx in ("", ".7")][: rng.randint(0, 4)]
+        order = case["order"]
+        if order == "base-last":
+            ids = ids[::-1]
+        elif order == "shuffled":
+            rng.shuffle(ids)
+        minlen = 4
+        model = {}
+        indir = os.path.join(base, "in")
+        os.makedirs(indir)
+        lengths = {i: rng.choice([2, 2, 9, 30, 30, 45]) for i in ids}
+        lengths["gene"] = 30  # the plain name is stored, the dotted ones have to stay apart from it
+        for i in ids:
+            seqs = {nm: "".join(rng.choice("ACGT") for _ in range(lengths[i])) for nm in ("s1", "s2", "s3")}
+            with open(os.path.join(indir, i + ".fasta"), "w") as f:
+                for nm, sq in seqs.items():
+                    f.write(f">{nm}\n{sq}\n")
+            third = {nm: sq[2::3] for nm, sq in seqs.items()}
+            n3 = len(third["s1"])
+            model[i] = ("completed", canon(third)) if n3 >= minlen else ("nc", n3)
+        kind_in = case["inputs"]
+
+        def chain(out):
+            return get_app("load_aligned", format="fasta", moltype="dna") + get_app("take_codon_positions", 3) + get_app("min_length", minlen) + get_app("write_db", out)
+
+        def inputs(subset=None):
+            if kind_in == "member":
+                ds = open_data_store(indir, suffix="fasta")
+                by = {str(m.unique_id)[: -len(".fasta")]: m for m in ds.completed}
+                return [by[i] for i in ids if subset is None or i in subset]
+            return [os.path.join(indir, i + ".fasta") for i in ids if subset is None or i in subset]
+
+        def seqs_of(obj):
+            """{name: sequence} out of a pickled alignment record, without cogent3"""
+            out = {}
+            for nm, d in obj["seqs"].items():
+                sq = d["seq"] if isinstance(d, dict) else d
+                while isinstance(sq, dict):
+                    sq = sq["init_args"]["seq"] if "init_args" in sq else sq["seq"]
+                out[nm] = str(sq)
+            return out
+
+        def audit(path, submitted, label, returned_store=None):
+            recs = {}
+            con = sqlite3.connect(f"file:{path}?mode=ro", uri=True)
+            try:
+                rows = list(con.execute("SELECT record_id, is_completed, data FROM results"))
+            finally:
+                con.close()
+            det = {"ids_in_order": ids, "lengths": lengths, "scenario": label, "inputs": kind_in, "replay_case": case}
+            for rid, is_c, data in rows:
+                recs.setdefault(rid, []).append((is_c, pickle.loads(data)))
+            ro = open_data_store(path, mode="r")
+            reopened = {("completed", str(m.unique_id)) for m in ro.completed} | {("nc", str(m.unique_id)) for m in ro.not_completed}
+            ro.close()
+            disk = {("completed" if c else "nc", rid) for rid, v in recs.items() for c, _ in v}
+            res.evals += 1
+            if reopened != disk:
+                res.witness("C14/store/reopened-listing-differs-from-disk", reopened=sorted(reopened), disk=sorted(disk), **det)
+            if returned_store is not None:
+                res.evals += 1
+                if returned_store != disk:
+                    res.witness("C14/store/listing-differs-from-disk", api=sorted(returned_store), disk=sorted(disk), **det)
+            for i in submitted:
+                res.evals += 1
+                res.count("real:records-checked")
+                got = recs.get(i, [])
+                if not got:
+                    res.witness("C14/conservation/input-without-record", key=i, expected=model[i], records=sorted(recs), **det)
+                    continue
+                if len(got) > 1:
+                    res.witness("C14/conservation/duplicate-record", key=i, **det)
+                    continue
+                is_c, obj = got[0]
+                kind = "completed" if is_c else "nc"
+                if kind != model[i][0]:
+                    res.witness(f"C14/association/{model[i][0]}-expected-{kind}-stored", key=i, expected=model[i], **det)
+                    continue
+                if is_c:
+                    try:
+                        content = canon(seqs_of(obj))
+                    except Exception:  # noqa: BLE001
+                        res.count("real:completed-content-not-parsed")
+                        continue
+                    if content != model[i][1]:
+                        other = next((o for o in ids if o != i and model[o] == ("completed", content)), None)
+                        cls = "record-holds-another-inputs-result" if other else "content-differs-from-model"
+                        res.witness(f"C14/association/{cls}", key=i, got=content, expected=model[i][1], belongs_to=other, **det)
+                else:
+                    a = obj["not_completed_construction"]
+                    typ, origin, message = a["args"]
+                    source = a["kwargs"].get("source")
+                    res.count("real:empty-alignment-failure" if model[i][1] == 0 else "real:short-alignment-failure")
+                    if origin != "min_length":
+                        res.witness("C14/failure-record/origin-is-not-the-failing-step", key=i, record=[typ, origin, message, source], **det)
+                    if not message or str(model[i][1]) not in message:
+                        res.witness("C14/failure-record/message-lost", key=i, record=[typ, origin, message, source], **det)
+                    res.evals += 1
+                    if source != i + ".fasta":
+                        cls = "source-missing" if source is None else "source-wrong"
+                        res.witness(f"C14/failure-record/{cls}", key=i, record=[typ, origin, message, source], expected_source=i + ".fasta", **det)
+            res.evals += 1
+            extra = sorted(set(recs) - set(ids))
+            if extra:
+                res.witness("C14/conservation/record-without-input", extra=extra, **det)
+
+        def listing(out):
+            return {("completed", str(m.unique_id)) for m in out.completed} | {("nc", str(m.unique_id)) for m in out.not_completed}
+
+        def guarded(label, fn):
+            try:
+                return True, fn()
+            except Exception as e:  # noqa: BLE001
+                res.evals += 1
+                res.witness(exc_mechanism(f"C14/real/{label}", e), error=repr(e)[:300], ids_in_order=ids, lengths=lengths, replay_case=case)
+                return False, None
+
+        # fresh run, mode w
+        res.count("real:histories")
+        path = os.path.join(base, "fresh.sqlitedb")
+        out = open_data_store(path, mode="w")
+        ok, _ = guarded("apply_to", lambda: chain(out).apply_to(inputs(), show_progress=False, logger=False))
+        api = listing(out) if ok else None
+        out.close()
+        if ok:
+            audit(path, ids, "fresh", api)
+        # resumed run: the plain names first, then everything into the same store opened in append mode
+        res.count("real:histories")
+        path = os.path.join(base, "resumed.sqlitedb")
+        first = {i for i in ids if "." not in i}
+        out = open_data_store(path, mode="w")
+        ok, _ = guarded("apply_to", lambda: chain(out).apply_to(inputs(first), show_progress=False, logger=False))
+        out.close()
+        if ok:
+            audit(path, [i for i in ids if i in first], "resumed/phase-1")
+            out = open_data_store(path, mode="a")
+            ok, _ = guarded("apply_to-resumed", lambda: chain(out).apply_to(inputs(), show_progress=False, logger=False))
+            api = listing(out) if ok else None
+            out.close()
+            if ok:
+                audit(path, ids, "resumed/phase-2", api)
+        # the composed app called on each input
+        res.count("real:histories")
+        path = os.path.join(base, "called.sqlitedb")
+        out = open_data_store(path, mode="w")
+        app = chain(out)
+        ok, _ = guarded("call", lambda: [app(x) for x in inputs()])
+        out.close()
+        if ok:
+            audit(path, ids, "called")
+        res.sig("real", len(ids), order, kind_in, tuple(sorted({model[i][0] if model[i][0] == "completed" else f"nc{min(model[i][1], 1)}" for i in ids})))
+    finally:
+        shutil.rmtree(base, ignore_errors=True)
+
+
 def run_case(case):
     res = Result()
     kind = case["kind"]
@@ -1278,6 +1593,10 @@ def run_case(case):
         case_direct(res, case)
     elif kind == "fixed":
         case_fixed(res, case)
+    elif kind == "fixed-dotted":
+        case_fixed_dotted(res, case)
+    elif kind == "real":
+        case_real(res, case)
     return res
 
 
